@@ -7,12 +7,20 @@ fill values; rank 1..2; print limit (max_err_cnt) arbitrary.
 Why `bounded` and not `proved` (DESIGN section 5 planned a loop contract on the per-type loop): the loop
 body assigns 26 locals (double-precision statistics included).  dfcc havocs every loop-assigns target
 through a pointer fetched from its write-set array; cbmc 6.11 resolves each of these 26 pointers against
-~50 candidate objects of different types (nested byte_update/if).  Measured on the 8-bit loop with the
-invariant "n_diff > 0 if a ghost element below i differs": symex 487 s, then no end of the SSA conversion
-within 10 min (same mechanism as obligations/c06_dfconv.py describes for DFKsb2b).  Without loop contracts,
-with the type constant, --slice-formula (drops the unused float statistics) and rank <= 2 (a symbolic
-product of two extents makes the overflow check a multiplier-equivalence problem: no answer in 5 min)
-the unwound loop costs ~0.3 s per element.
+~50 candidate objects of different types (nested if/byte_update, seen in gdb: symex_assignt::assign_if
+50 deep).  Measured on the 8-bit loop with the invariant
+  i <= tot_cnt && i1ptr1 == (int8*)buf1 + i && i1ptr2 == (int8*)buf2 + i && n_diff <= i &&
+  ((g_k < i && buf1[g_k] != buf2[g_k]) ==> n_diff > 0) && (g_same ==> n_diff == 0)
+(+ bookkeeping contracts on the two set-up loops, print_pos replaced by its contract, --slice-formula):
+symex 430-490 s, then the SSA conversion did not finish (run 1: 10 min timeout; run 2: process died
+6 min after symex).  Same mechanism as obligations/c06_dfconv.py describes for DFKsb2b.  Also
+max_err_cnt == 0 (print_pos unreachable, 24 targets) did not help.
+What made the unwound loop cheap (0.3-1 s per element): the type a harness constant; --slice-formula
+(drops the float statistics that only -S prints); rank <= 2 -- with rank 3 the requires "dims[1]*dims[2]
+fits" against the code's int multiplication is a multiplier-equivalence problem (no answer in 5 min);
+print_pos replaced by a contract whose decomposition clauses are switched off inside array_diff (g_pp_full).
+print_pos itself: symbolic strides (quotient, then product with the same stride) did not close in 10 min
+even for rank <= 2 (minisat and cadical); with the strides constants of the obligation 30-60 s (cadical).
 """
 from .core import ob, prop
 
